@@ -219,7 +219,10 @@ def rank_text(r):
 def run_suggest(it, st, ctx, ps, term, selections, cfg):
     prog = it.p
     fn = prog.find_fn("PhoneticSuggestion", "suggest")
-    ret = it.call_function(fn, [Ref([ps], 0, True), Str(term), Ref([Opaque("Data")], 0), Ref([selections], 0, True), Ref([cfg], 0)])
+    from fixedlib import mk_data
+    if "data" not in ctx:
+        ctx["data"] = mk_data(prog, st)
+    ret = it.call_function(fn, [Ref([ps], 0, True), Str(term), Ref([ctx["data"]], 0), Ref([selections], 0, True), Ref([cfg], 0)])
     return ret.fields[0], ret.fields[1]
 
 
@@ -468,6 +471,12 @@ def make_suggest(shape):
         selections = SMap("selections", [], sel_oracle)
         ctx.update(word=word, term=term, ps=ps, cfg=cfg, opts=opts, selections=selections, base_items=base_items, cache=cache, pre=pre, trail=trail)
         st.ctx = ctx
+        if shape.get("preconsult_emoji"):
+            # fix the table answers for the whole text and for the word part up front: the clauses then speak about both, whichever the code asks first
+            ov = it.env["overrides"]
+            ov["Data::get_emoji_by_emoticon"](it, [None, Str(term)], "pre")
+            if word is not None and len(word) > 0:
+                ov["Data::get_emoji_by_name"](it, [None, Str(word)], "pre")
 
         def run():
             res = {}
@@ -735,7 +744,7 @@ WRAPPERS_QUICK = [("", ""), ("\"", "\""), ("'", ""), ("(", ")"), ("", "."), ("",
 
 
 def conv_table_for(strings):
-    strings = list(strings) + [a + b for a, b in WRAPPERS_QUICK]
+    strings = list(strings) + [a + b for a, b in WRAPPERS_QUICK] + [a for a, b in WRAPPERS_QUICK] + [b for a, b in WRAPPERS_QUICK] + [",,", "..", "..."]
     need = sorted(set(s for s in strings if s))
     out = run_replay([{"steps": [{"op": "okkhor", "text": x} for x in need]}])[0]["results"]
     return {x: r["text"] for x, r in zip(need, out) if "text" in r}
@@ -955,6 +964,54 @@ def obl_order(check, conv_table, thorough=False, budget_s=None):
                            confirmers={"autocorrect_entry_is_first": autocorrect_search, "no_candidate_twice": duplicate_search}, budget_s=budget_s)
 
 
+def join_concrete(base, sfx):
+    """Reference joining on concrete strings (None when the reference is silent)."""
+    rmc, lmc = ord(base[-1]), ord(sfx[0])
+    if rmc in CL.RARE or lmc in CL.RARE:
+        return None
+    if (rmc in CL.VOWELS or rmc in CL.KARS) and lmc in CL.KARS:
+        return base + chr(CL.B_YYA) + sfx
+    if rmc == CL.KHANDA_TA:
+        return base[:-1] + chr(CL.B_T) + sfx
+    if rmc == CL.ANUSVARA:
+        return base[:-1] + chr(CL.B_NGA) + sfx
+    return base + sfx
+
+
+def suffix_search(vs):
+    """Native confirmation of a missing suffix form: a few bases x every key of suffix.json, typed in one context so that the base is
+    memoised; every direct candidate of the base must appear joined."""
+    keys = char_keys()
+    data = bundled_data()
+    bases = ["boi", "kolom", "desh"]
+    cfg = {"layout": "avro_phonetic", "database": REPO + "/data", "opts": {"phonetic_suggestion": True}}
+    scs = []
+    meta = []
+    for b2 in bases:
+        for sk, sv in data["suffix"].items():
+            if any(ch not in keys for ch in sk):
+                continue
+            steps = [{"op": "new", "config": cfg}] + [{"op": "key", "key": keys[ch], "sel": 0} for ch in b2 + sk] + [{"op": "get_state"}]
+            scs.append({"steps": steps})
+            meta.append((b2, sk, sv))
+    res = run_replay_parallel(scs, timeout=1800)
+    for (b2, sk, sv), sc, r in zip(meta, scs, res):
+        rr = r["results"]
+        last = rr[-2]
+        if "panic" in last:
+            return sc, last, "typing %r panics: %s" % (b2 + sk, last["panic"]), None
+        lst = last.get("suggestion", {}).get("list", [])
+        direct = rr[-1]["state"]["cache"].get(b2, [])
+        for kind, text, n in direct:
+            if not text:
+                continue
+            j = join_concrete(text, sv)
+            if j is not None and j not in lst:
+                return sc, last, ("typed %r = base %r + suffix %r (%r): the base candidate %r is not offered in joined form %r; list %s" % (
+                    b2 + sk, b2, sk, sv, text, j, lst[:8])), "suffix form missing for a known base|suffix split"
+    return None
+
+
 def obl_suffix(check, conv_table, thorough=False, budget_s=None):
     kw = dict(mode="single", dict_max=1, emoji_names=False, emoticons=False, autocorrect=False, user_autocorrect=False, selections=False,
               fixed={"include_english": False, "ansi": False}, dist_mode="fixed", distinct=True)
@@ -966,16 +1023,124 @@ def obl_suffix(check, conv_table, thorough=False, budget_s=None):
     check.bounds["assembly_suffix"] = dict(word="3%s symbolic letters/digits: every split point, suffix known or not" % (" or 4" if thorough else ""),
                                            memo="every proper prefix holds one candidate (dictionary word or auto-correct entry) of 1 symbolic Bengali-block code point",
                                            suffix_value="1 symbolic Bengali-block code point", wrappers=["W", "\"W\""])
-    run_suggest_obligation(check, "assembly_suffix", shapes, ["cover:suffix_join"], budget_s=budget_s)
+    run_suggest_obligation(check, "assembly_suffix", shapes, ["cover:suffix_join"], confirmers={"suffix_forms_complete": suffix_search}, budget_s=budget_s)
+
+
+def emoji_search(vs):
+    """Native confirmation for the emoticon / emoji-name clauses: walk the emojicon tables (confirmation only; the verdict is the solver's)."""
+    keys = char_keys()
+    data = bundled_data()
+    cfg = {"layout": "avro_phonetic", "database": REPO + "/data", "opts": {"phonetic_suggestion": True, "smart_quote": False}}
+    scs = []
+    meta = []
+    for emo, emoji in data["emoticon"].items():
+        if all(ch in keys for ch in emo):
+            scs.append({"steps": [{"op": "new", "config": cfg}] + [{"op": "key", "key": keys[ch], "sel": 0} for ch in emo]})
+            meta.append(("emoticon", emo, [emoji]))
+    for name, ems in list(data["emoji_name"].items()):
+        if all(ch in keys for ch in name) and name not in data["emoticon"]:
+            for pre, trail in (("", ""), ("(", ")")):
+                t = pre + name + trail
+                if t in data["emoticon"]:
+                    continue
+                scs.append({"steps": [{"op": "new", "config": cfg}] + [{"op": "key", "key": keys[ch], "sel": 0} for ch in t]})
+                meta.append(("name", t, [pre + e + trail for e in ems]))
+    res = run_replay_parallel(scs, timeout=1800)
+    for (kind, t, want), sc, r in zip(meta, scs, res):
+        last = r["results"][-1]
+        if "panic" in last:
+            return sc, last, "typing %r panics: %s" % (t, last["panic"]), None
+        lst = last.get("suggestion", {}).get("list", [])
+        if kind == "emoticon":
+            if want[0] not in lst or lst.count(t) != 1:
+                return sc, last, "emoticon %r: offered %s; its emoji %r %s, the literal text occurs %d time(s)" % (
+                    t, lst, want[0], "is offered" if want[0] in lst else "is missing", lst.count(t)), "emoticon does not offer its emoji / literal text"
+        else:
+            pos = [lst.index(e) if e in lst else -1 for e in want]
+            if -1 in pos or pos != sorted(pos):
+                return sc, last, "emoji name text %r: offered %s, expected all of %s in table order" % (t, lst, want), "emoji name does not offer all its emoji in order"
+    return None
+
+
+def translit_search(vs):
+    """Native confirmation for `transliteration_is_a_candidate`: words x punctuation runs, smart quotes off, against the real okkhor."""
+    keys = char_keys()
+    words = ["ah", "kt", "ami", "a"]
+    runs = ["", ",", ",,", ".", "..", "...", "!", "?", "(", ")", "\"", "-", ";", ",,,", ".,", "()"]
+    texts = [p + w + t for w in words for p in runs[:8] for t in runs]
+    scs = []
+    for t in texts:
+        cfg = {"layout": "avro_phonetic", "database": REPO + "/data", "opts": {"phonetic_suggestion": True, "smart_quote": False}}
+        scs.append({"steps": [{"op": "new", "config": cfg}] + [{"op": "key", "key": keys[ch], "sel": 0} for ch in t] + [{"op": "split", "text": t, "colon": False}]})
+    res = run_replay_parallel(scs)
+    need = set()
+    for r in res:
+        for p in r["results"][-1].get("parts", []):
+            need.add(p)
+    table = conv_table_for(list(need))
+    for t, sc, r in zip(texts, scs, res):
+        rr = r["results"]
+        last = rr[-2]
+        if "panic" in last:
+            return sc, last, "typing %r panics: %s" % (t, last["panic"]), None
+        parts = rr[-1]["parts"]
+        want = "".join(table.get(p, "") if p else "" for p in parts)
+        lst = last.get("suggestion", {}).get("list", [])
+        if want not in lst:
+            return sc, last, "typed %r: the transliteration %r of its parts %s is not among the candidates %s" % (t, want, parts, lst), "transliteration is not a candidate"
+    return None
 
 
 def obl_emoji(check, conv_table, thorough=False, budget_s=None):
-    kw = dict(mode="single", dict_max=1, emoji_count=2, suffixes=False, selections=False, autocorrect=False, user_autocorrect=False, dist_mode="fixed")
-    shapes = base_shapes(WRAPPERS_QUICK if thorough else WRAPPERS_QUICK[:6], [1, 2] if thorough else [1], conv_table, **kw)
+    kw = dict(mode="single", dict_max=1, emoji_count=2, suffixes=False, selections=False, autocorrect=False, user_autocorrect=False, dist_mode="fixed",
+              preconsult_emoji=True)
+    shapes = base_shapes((WRAPPERS_QUICK + [("", ",,"), (",,", "")]) if thorough else (WRAPPERS_QUICK[:6] + [("", ",,")]), [1, 2] if thorough else [1], conv_table, **kw)
     check.bounds["assembly_emoji"] = dict(word="1%s symbolic letters/digits" % ("-2" if thorough else ""), wrappers=[s["pre"] + "W" + s["trail"] for s in shapes][:12],
                                           data="emoticon for the whole text present or absent; emoji name with 2 distinct emoji present or absent; 0-1 dictionary word",
                                           options="English, ANSI, smart quotes symbolic")
-    run_suggest_obligation(check, "assembly_emoji", shapes, ["cover:emoticon", "cover:emoji_name"], budget_s=budget_s)
+    run_suggest_obligation(check, "assembly_emoji", shapes, ["cover:emoticon", "cover:emoji_name"],
+                           confirmers={"emoticon_offers_its_emoji_and_keeps_the_literal_text": emoji_search,
+                                       "emoji_name_offers_all_its_emoji_in_table_order_wrapped": emoji_search,
+                                       "transliteration_is_a_candidate": translit_search}, budget_s=budget_s)
+
+
+def quote_pair_search(vs):
+    """Native confirmation of a smart-quote pairing violation: same text, option on vs off; lists must be equal after un-curling (raw text identical)."""
+    keys = char_keys()
+    un = {0x2018: "'", 0x2019: "'", 0x201C: '"', 0x201D: '"'}
+
+    def uncurl_s(t):
+        return "".join(un.get(ord(ch), ch) for ch in t)
+    words = ["sesh", "a", "\\", "smile", "k"]
+    wraps = [("\"", "\""), ("'", "'"), ("\"", ""), ("", "'"), ("(\"", "\")"), ("\"'", "'\"")]
+    texts = [p + w + t for w in words for p, t in wraps] + SPECIAL_TERMS
+    scs = []
+    meta = []
+    for t in texts:
+        if any(ch not in keys for ch in t):
+            continue
+        for en in (True, False):
+            for ansi in (False, True):
+                steps = []
+                for cid, sq in ((0, True), (1, False)):
+                    cfg = {"layout": "avro_phonetic", "database": REPO + "/data", "opts": {"phonetic_suggestion": True, "english": en, "ansi": ansi, "smart_quote": sq}}
+                    steps += [{"op": "new", "ctx": cid, "config": cfg}] + [{"op": "key", "ctx": cid, "key": keys[ch], "sel": 0} for ch in t] + [{"op": "get_state", "ctx": cid}]
+                scs.append({"steps": steps})
+                meta.append((t, en, ansi))
+    res = run_replay_parallel(scs)
+    for (t, en, ansi), sc, r in zip(meta, scs, res):
+        rr = r["results"]
+        states = [i for i, x in enumerate(rr) if x.get("op") == "get_state"]
+        on, off = rr[states[0] - 1], rr[states[1] - 1]
+        if "panic" in on or "panic" in off:
+            continue
+        lon, loff = on.get("suggestion", {}).get("list", []), off.get("suggestion", {}).get("list", [])
+        son, soff = rr[states[0]]["state"]["prev_selection"], rr[states[1]]["state"]["prev_selection"]
+        same = len(lon) == len(loff) and all((a == b2) if a == t or b2 == t else (uncurl_s(a) == uncurl_s(b2)) for a, b2 in zip(lon, loff))
+        if not same or son != soff:
+            return sc, [on, off], "typed %r (English %s, ANSI %s): with smart quotes %s (preselection %d), without %s (preselection %d)" % (
+                t, en, ansi, lon, son, loff, soff), "smart quotes change the list beyond curling"
+    return None
 
 
 def obl_quote_pair(check, conv_table, thorough=False, budget_s=None):
@@ -984,7 +1149,8 @@ def obl_quote_pair(check, conv_table, thorough=False, budget_s=None):
     shapes += special_term_shapes(SPECIAL_TERMS, **kw)
     check.bounds["quote_pairing"] = dict(word="0-1%s symbolic letters/digits" % ("/2" if thorough else ""), wrappers=[s["pre"] + "W" + s["trail"] for s in shapes][:10],
                                          data="0-1 dictionary word, emoji name / emoticon / learned selection present or absent", options="English, ANSI symbolic; smart quotes on vs off")
-    run_suggest_obligation(check, "quote_pairing", shapes, ["cover:quote_pair"], budget_s=budget_s)
+    run_suggest_obligation(check, "quote_pairing", shapes, ["cover:quote_pair"],
+                           confirmers={"smart_quotes_keep_length_and_order": quote_pair_search, "smart_quotes_keep_preselection": quote_pair_search}, budget_s=budget_s)
 
 
 def obl_warm(check, conv_table, thorough=False, budget_s=None):
@@ -1717,3 +1883,219 @@ def validate_dictionary_order(check):
         return False
     check.obligation("dictionary_order_contract", "data", "held", "%d words in %d tables, %d repeated entries (adjacent among matches)" % (total, len(d), dups))
     return True
+
+
+# ------------------------------------------------------------------------- C15: ranks of the fixed search are computed from the shown text
+
+def make_fixed_search(shape):
+    wlen, nwords = shape["wlen"], shape["nwords"]
+
+    def build(st, it):
+        prog = it.p
+        word = [st.sym_char("w%d" % i, BENGALI_LO, 0x09DF) for i in range(wlen)]
+        # the first letter must have a table: keep it a consonant
+        st.assume(zin(word[0], list(range(0x0995, 0x09A9))))
+        exts = []
+        words = []
+        for k in range(nwords):
+            ext = [st.sym_char("x%d_%d" % (k, j), BENGALI_LO, 0x09DF) for j in range(shape["ext"])]
+            exts.append(ext)
+            words.append(SString(list(word) + ext))
+        ed_memo = {}
+        ed_log = []
+
+        def get_words_for(it2, args, callee):
+            from mirsym.models import ItSlice
+            return ItSlice(words, 0, len(words))
+
+        def regex_new(it2, args, callee):
+            from mirsym.values import ok
+            return ok(Opaque("Regex"))
+
+        def is_match(it2, args, callee):
+            return True
+
+        def edit_distance(it2, args, callee):
+            a, b = elems_of(args[0]), elems_of(args[1])
+            k = (key_of_elems(a), key_of_elems(b))
+            if k not in ed_memo:
+                d = st.sym_bv("ed%d" % len(ed_memo), 64)
+                st.assume(z3.ULE(d, 20))
+                ed_memo[k] = d
+                ed_log.append((a, b, d))
+            return ed_memo[k]
+        it.env["overrides"] = {"Data::get_words_for": get_words_for, "Regex::new": regex_new, "Regex::is_match": is_match, "edit_distance": edit_distance}
+        trad = st.sym_bool("traditional_kar")
+        sugg = SVec([])
+        st.ctx = dict(word=word, words=words, exts=exts, trad=trad, sugg=sugg, ed_memo=ed_memo)
+        fn = prog.find_fn("search_dictionary")
+
+        def run():
+            it.call_function(fn, [Str(word), Str(word), Ref([sugg], 0, True), trad, Ref([Opaque("Data")], 0)])
+            return sugg
+        return run
+
+    def on_path(st, it, out):
+        prog = it.p
+        c = st.ctx
+        model = st.get_model()
+
+        def inputs(m):
+            return dict(word=model_string(m, c["word"]), dictionary=[model_string(m, w.elems) for w in c["words"]], traditional_kar=bool(model_value(m, c["trad"])))
+
+        def pred(m):
+            if out[0] == "panic":
+                return dict(panic=out[1].message)
+            return dict(list=[rank_json(prog, m, x) for x in c["sugg"].items])
+        if out[0] == "panic":
+            return [dict(kind="violation", clause="no_panic", inputs=inputs(model), predicted=pred(model))]
+        items = c["sugg"].items
+        trad = zb(c["trad"])
+        clauses = [("every_match_is_offered", len(items) == len(c["words"]))]
+        base_key = key_of_elems(c["word"])
+        for x, w in zip(items, c["words"]):
+            text = rank_text(x)
+            plain = list(w.elems)
+            # shown text: the dictionary word, with a non-joiner in front of each ligature-making sign under traditional joining
+            disp_alts = []
+            lig = [zin(ch, CL.LIGATURE_KARS) for ch in plain]
+            for mask in itertools.product((False, True), repeat=len(plain)):
+                exp = []
+                for ch, mk in zip(plain, mask):
+                    if mk:
+                        exp.append(CL.ZWNJ)
+                    exp.append(ch)
+                cond = z3.And([l if mk else z3.Not(l) for l, mk in zip(lig, mask)])
+                disp_alts.append(z3.And(cond, seq_eq(text, exp)))
+            clauses.append(("shown_text_is_the_dictionary_word_with_blocked_ligatures", z3.If(trad, z3.Or(disp_alts), seq_eq(text, plain))))
+            d = c["ed_memo"].get((base_key, key_of_elems(text)))
+            if d is None:
+                clauses.append(("distance_is_computed_from_the_shown_text", False))
+            else:
+                clauses.append(("distance_is_computed_from_the_shown_text", simp(bv(x.fields[1], 8) == z3.Extract(7, 0, d * 10))))
+            clauses.append(("cover:ranked", True))
+        return eval_clauses(st, clauses, lambda cn, m: dict(kind="violation", clause=cn, inputs=inputs(m), predicted=pred(m)))
+    return build, on_path
+
+
+def lev(a, b):
+    prev = list(range(len(b) + 1))
+    for i, x in enumerate(a, 1):
+        cur = [i]
+        for j, y in enumerate(b, 1):
+            cur.append(min(prev[j] + 1, cur[j - 1] + 1, prev[j - 1] + (x != y)))
+        prev = cur
+    return prev[-1]
+
+
+def fixed_rank_search(vs):
+    """Native confirmation: type prefixes in fixed mode (traditional joining on and off) and compare every dictionary candidate's number in
+    the scratch list with the edit distance between the typed word and the shown text."""
+    prefixes = ["দাদ", "দিদ", "কু", "বু", "সু", "মৃ", "দীক্ষ", "আম", "কর"]
+    scs = []
+    meta = []
+    for trad in (True, False):
+        for pfx in prefixes:
+            cfg = {"layout_json": {"Key_a_Normal": pfx}, "database": REPO + "/data", "opts": {"fixed_suggestion": True, "kar": trad}}
+            scs.append({"steps": [{"op": "new", "config": cfg}, {"op": "key", "key": 0xA096}, {"op": "get_state"}]})
+            meta.append((pfx, trad))
+    res = run_replay(scs)
+    for (pfx, trad), sc, r in zip(meta, scs, res):
+        rr = r["results"]
+        if "panic" in rr[1]:
+            return sc, rr[1], "fixed mode: composing %r panics: %s" % (pfx, rr[1]["panic"]), None
+        ranks = rr[2]["state"]["suggestions"]
+        others = [(t, n) for k, t, n in ranks if k == 2]
+        for t, n in others:
+            want = (lev(pfx, t) * 10) & 0xFF
+            if n != want:
+                return sc, rr[2], ("fixed mode, traditional joining %s: typed %r, candidate %r carries distance %d but its edit distance from the typed "
+                                   "word is %d; list %s" % (trad, pfx, t, n, want // 10 * 10, [x[1] for x in ranks])), "fixed search: distance not computed from the shown text"
+        ns = [n for _, n in others]
+        if ns != sorted(ns):
+            return sc, rr[2], "fixed mode: typed %r: dictionary candidates not in distance order %s" % (pfx, others), "fixed search: candidates out of distance order"
+    return None
+
+
+def obl_fixed_search(check, thorough=False, budget_s=None):
+    shapes = [dict(wlen=1, nwords=2, ext=1), dict(wlen=2, nwords=1, ext=2)] + ([dict(wlen=2, nwords=2, ext=2)] if thorough else [])
+    check.bounds["fixed_search_ranks"] = dict(word="1-2 symbolic Bengali-block code points", dictionary="1-2 matching words = typed word + 1-2 symbolic code points",
+                                              traditional_joining="symbolic", edit_distance="uninterpreted function of (typed word, text)")
+    records, errors, summ = msym.run_shapes(check, "fixed_search_ranks", shapes, make_fixed_search, budget_s=budget_s)
+    vio = [r for r in records if r["kind"] == "violation" and r["clause"] != "no_panic"]
+    covers = set(r["name"] for r in records if r["kind"] == "cover")
+    name = "fixed_search_ranks"
+    if errors:
+        check.obligation(name, "mirsym", "inconclusive", "executor gave up: " + "; ".join(sorted(set(errors))[:3]))
+        return
+    if "cover:ranked" not in covers:
+        check.obligation(name, "mirsym", "inconclusive", "vacuity: no candidate was ranked")
+        return
+    if not vio:
+        check.obligation(name, "mirsym", "held", "%d paths; every candidate shows the dictionary word (ligatures blocked under traditional joining) and carries 10 x distance(typed word, shown text)" % summ["paths"])
+        return
+    found = fixed_rank_search(vio)
+    if found is None:
+        check.obligation(name, "mirsym", "inconclusive", "counterexample not re-found natively: %s -> %s" % (
+            json.dumps(vio[0]["inputs"], ensure_ascii=False)[:300], json.dumps(vio[0]["predicted"], ensure_ascii=False)[:300]))
+        return
+    sc, obs, what, role = found
+    check.stats["traces_validated"] += 1
+    st = check.finding(role or "fixed search ranks", what, dict(scenario=sc, observed=obs, solver_counterexample=vio[0]["inputs"]))
+    check.sample(dict(obligation=name, counterexample=vio[0]["inputs"], outcome=vio[0]["predicted"]))
+    check.obligation(name, "mirsym", st, "%d paths; %d counterexample models" % (summ["paths"], len(vio)))
+
+
+# ------------------------------------------------------------------------- C01/C10: empty strings in stored / user data
+
+def obl_empty_strings(check, conv_table, budget_s=None):
+    """Candidate assembly with stored strings allowed to be empty (a learned entry, a user auto-correct entry or a memo candidate
+    of zero length, as a damaged or hand-edited user file can contain): no panic."""
+    kw = dict(mode="single", dict_max=1, dist_mode="fixed", emoji_names=False, emoticons=False, autocorrect=False, user_autocorrect=True,
+              selections=True, suffixes=True, fixed={"ansi": False, "include_english": False, "smart_quote": False}, distinct=False,
+              learned_len=0, conv_len=1, stale_scratch=False)
+    shapes = base_shapes([("", "")], [2, 3], conv_table, **kw)
+    shapes += base_shapes([("", "")], [3], conv_table, **dict(kw, base_len=0))
+    check.bounds["empty_strings"] = dict(word="2-3 symbolic letters/digits", stored="learned entries of length 0; memo candidates of length 0 (user auto-correct value that converts to nothing)")
+    records, errors, summ = msym.run_shapes(check, "empty_stored_strings", shapes, make_suggest, budget_s=budget_s)
+    vio = [r for r in records if r["kind"] == "violation" and r["clause"] == "no_panic"]
+    name = "empty_stored_strings"
+    if errors:
+        check.obligation(name, "mirsym", "inconclusive", "executor gave up: " + "; ".join(sorted(set(errors))[:3]))
+        return
+    if not vio:
+        check.obligation(name, "mirsym", "held", "%d paths, no panic path" % summ["paths"])
+        return
+    # native confirmation: plant the stored strings through the user files
+    keys = char_keys()
+    cfg = {"layout": "avro_phonetic", "database": REPO + "/data", "opts": {"phonetic_suggestion": True}}
+
+    def typ(t):
+        return [{"op": "key", "key": keys[ch], "sel": 0} for ch in t]
+    tries = [("learned entry with an empty value", [{"op": "write_user_file", "name": "phonetic-candidate-selection.json", "content": "{\"a\":\"\"}"}], "aer"),
+             ("user auto-correct entry with an empty value", [{"op": "write_user_file", "name": "autocorrect.json", "content": "{\"a\":\"\"}"}], "aer"),
+             ("learned entry with an empty key and value", [{"op": "write_user_file", "name": "phonetic-candidate-selection.json", "content": "{\"\":\"\"}"}], "er")]
+    found = []
+    for what, files, text in tries:
+        sc = {"steps": files + [{"op": "new", "config": cfg}] + typ(text)}
+        rr = run_replay([sc])[0]["results"]
+        p = [x for x in rr if "panic" in x]
+        if p:
+            found.append((what, sc, p[0]))
+    # and through the API alone: commit the literal emoticon text, then type it with a suffix
+    sc = {"steps": [{"op": "new", "config": dict(cfg, opts={"phonetic_suggestion": True, "english": True})}] + typ(":)") + [{"op": "commit", "index": 1}] + typ(":er")}
+    rr = run_replay([sc])[0]["results"]
+    p = [x for x in rr if "panic" in x]
+    if p:
+        found.append(("empty learned value stored by committing the literal ':)' candidate", sc, p[0]))
+    if not found:
+        check.obligation(name, "mirsym", "inconclusive", "panic path with empty stored strings not re-found natively: %s" % json.dumps(vio[0]["predicted"])[:300])
+        return
+    status = "held"
+    worst = {"held": 0, "known": 1, "inconclusive": 2, "violated": 3}
+    for what, sc, obs in found:
+        check.stats["traces_validated"] += 1
+        st = check.finding("empty stored string: " + what, "%s, then typing: %s" % (what, obs["panic"]), dict(scenario=sc, observed=obs))
+        if worst[st] > worst[status]:
+            status = st
+    check.obligation(name, "mirsym", status, "%d paths, %d panic paths" % (summ["paths"], len(vio)))
